@@ -58,3 +58,9 @@ func (p *Position) VerifHashFromScratch() uint64 {
 }
 
 func VerifSlidesTable() [][]Slides { return slides }
+
+// VerifRehash returns the raw form with the internal hash field recomputed from the stacks.
+func (p *Position) VerifRehash() VerifRaw {
+	p.hash = p.VerifHashFromScratch()
+	return p.VerifRaw()
+}
